@@ -25,6 +25,8 @@ type ReplayFile struct {
 	Known    []string          `json:"known_ids"`
 	Active   []string          `json:"active"`
 	Clock    string            `json:"clock"`
+	Sched    []int             `json:"scheduler_choices,omitempty"`
+	NoNative bool              `json:"no_native,omitempty"`
 	Confirm  string            `json:"confirmed_by,omitempty"`
 	Output   string            `json:"native_output,omitempty"`
 }
@@ -147,7 +149,8 @@ func finishCheck(prop, tier string, seed int64, spec PropSpec, results []jobResu
 			for _, v := range s.Violations[l] {
 				replayN++
 				rf := ReplayFile{Property: prop, Label: l, Msg: v.Msg, Job: j.Name, Dir: j.Dir, Entry: j.Entry, Params: j.Params,
-					Values: v.Model, Choices: v.Choices, Known: known, Active: activeLabels(j, prop), Clock: j.Clock}
+					Values: v.Model, Choices: v.Choices, Known: known, Active: activeLabels(j, prop), Clock: j.Clock,
+					Sched: interp.SchedChoices(v.Path), NoNative: j.NoNative}
 				path := filepath.Join(replayDir, fmt.Sprintf("%04d.json", replayN))
 				writeJSON(path, rf)
 				ok, out := false, "(native replay not applicable: the job depends on engine-side stubs)"
